@@ -9,13 +9,18 @@ from common import cq
 from props._cfg_common import TRUSTED, ASSUMPTIONS, TECHNIQUE
 
 PROP = "C11"
-LEVEL = "other"
-THEOREMS = {"Properties.C11": ["C11_member_oracle", "C11_accepts_final_oracle", "C11_automaton_accepts"]}
-LEVEL_TEXT = ("Partial proof + correspondence: the three exact oracles (CFG membership, PDA acceptance by final state, automaton acceptance) are proved for "
-              "all inputs; cfg.intersection(r) and pda.intersection(r) results are compared, on all words up to a bound, with the conjunction of the operands' "
-              "exact answers, for r given as Regex, DFA, NFA and epsilon-NFA; other operand types must raise NotImplementedError. The Bar-Hillel and product "
-              "constructions themselves are not proved for all inputs.")
-LEVEL_NOTE = "Trusted: Coq kernel; hand-written models validated by correspondence; Python harness."
+LEVEL = "proof"
+THEOREMS = {"Properties.C11": ["C11_member_oracle", "C11_accepts_final_oracle", "C11_automaton_accepts", "C11_cfg_intersection_dfa", "C11_cfg_intersection",
+                             "C11_pda_intersection_product", "C11_pda_intersection_deterministic", "C11_pda_intersection"]}
+LEVEL_TEXT = ("Proof + correspondence: Coq theorems show, for the mirrored constructions and ALL operands and words, that cfg.intersection (determinise "
+              "the automaton, emptiness shortcut, Chomsky normal form, Bar-Hillel triples, Start -> epsilon when both sides contain the empty word) "
+              "generates exactly L(G) /\\ L(A), and that pda.intersection (operand kept when is_deterministic() holds, determinised otherwise; product over "
+              "the reachable pairs) accepts by final state exactly the words both accept. The three exact oracles (CFG membership, PDA acceptance by "
+              "final state, automaton acceptance) are proved; with them the results pyformlang returns are compared on all words up to a bound with the "
+              "conjunction of the operands' answers, for Regex, DFA, NFA and epsilon-NFA operands, next to the models' own results; other operand types "
+              "must raise NotImplementedError.")
+LEVEL_NOTE = ("Trusted: Coq kernel; hand-written models validated by correspondence (pyformlang's combined variable / state names are constructors in the "
+              "model; the returned objects are tied to the operands by bounded language agreement through the proved oracles); Python harness.")
 RULE = ("random (grammar | PDA) x (regex | DFA | NFA | epsilon-NFA, also deterministic-shaped, several start states, empty language) with partly overlapping "
         "alphabets, epsilon on one or both sides; words up to length 3-4; plus non-automaton operands")
 EXPLANATION = "Exact oracles on operands and result for all words up to a bound."
@@ -31,7 +36,8 @@ def generate(ctx):
     for i in range(n):
         left = "cfg" if i % 2 == 0 else "pda"
         kind = rng.choice(["regex", "dfa", "nfa", "nfa", "enfa", "enfa", "other"]) if rng.random() < 0.97 else "other"
-        c = {"op": left + "_inter", "rkind": kind, "maxlen": 3 if ctx.tier == "quick" else 4, "operator": rng.random() < 0.3}
+        c = {"op": left + "_inter", "rkind": kind, "maxlen": 3 if ctx.tier == "quick" else 4, "operator": rng.random() < 0.3,
+             "with_model": i % 5 in (0, 1)}
         if left == "cfg":
             c["g"] = cfglib.rand_cfg(rng, max_vars=3, max_prods=5, max_body=3)
             terms = c["g"]["terms"]
@@ -104,12 +110,16 @@ class _Ext:
         if case["op"] == "cfg_inter":
             G = coq_cfg(case["g"], ci)
             H = coq_cfg(obs["cfg"], ci)
-            return "(first_diff (fun w => cfg_member %s w && accepts %s w) (cfg_member %s) %s)" % (G, A, H, ws)
+            ref = "(fun w => cfg_member %s w && accepts %s w)" % (G, A)
+            m = "cfg_inter_model_diff %s %s %s %s" % (G, A, ref, ws) if case.get("with_model") else "@None (list N)"
+            return "(first_diff %s (cfg_member %s) %s, %s)" % (ref, H, ws, m)
         pi = PdaInterner(sym=ci.ter)
         P = coq_pda(case["p"], pi)
         pj = PdaInterner(sym=ci.ter)
         R = coq_pda(obs["pda"], pj)
-        return "(first_diff (fun w => pda_accepts_final %s w && accepts %s w) (pda_accepts_final %s) %s)" % (P, A, R, ws)
+        ref = "(fun w => pda_accepts_final %s w && accepts %s w)" % (P, A)
+        m = "pda_inter_model_diff %s %s %s %s" % (P, A, ref, ws) if case.get("with_model") else "@None (list N)"
+        return "(first_diff %s (pda_accepts_final %s) %s, %s)" % (ref, R, ws, m)
 
     @staticmethod
     def judge_case(ctx, case, obs, mv):
@@ -125,8 +135,11 @@ class _Ext:
         if "refused" in obs:
             ctx.fail(op + "-refuses-automaton", case, {"impl": obs})
             return
-        if mv is not None:
-            ctx.fail(op + "-language", case, {"word_interned": mv[1], "impl_out": obs.get("cfg") or obs.get("pda")})
+        d_impl, d_model = mv
+        if d_model is not None:
+            raise RuntimeError("HARNESS: the mirrored %s model disagrees with the operands' conjunction (or ran out of fuel) on %r (%r)" % (op, case, d_model))
+        if d_impl is not None:
+            ctx.fail(op + "-language", case, {"word_interned": d_impl[1], "impl_out": obs.get("cfg") or obs.get("pda")})
 
 
 def check_cases(ctx, cases):
